@@ -89,6 +89,8 @@ ECmp(a, b) ==
            [] a.t = "str" -> IF a.v = b.v THEN 0 ELSE 2
            [] a.t \in {"seq", "struct"} -> ECmpSeq(a.v, b.v, 1)
            [] OTHER -> 2
+RECURSIVE HasSeq(_)
+HasSeq(v) == v.t = "seq" \/ (v.t = "struct" /\ \E i \in 1..Len(v.v) : HasSeq(v.v[i]))
 Rel(f, a, b) == LET c == ECmp(a, b)
                 IN IF c = 2 THEN BigV
                    ELSE CASE f = "lt" -> BoolV(c < 0) [] f = "le" -> BoolV(c <= 0) [] f = "gt" -> BoolV(c > 0)
@@ -407,6 +409,11 @@ EvCall(e, env, st, tail) ==
                        THEN LET m == Apply(a.r[2], <<a.r[1].v>>, a.st)
                             IN IF Dead(m.st) \/ IsErr(m.r) THEN m ELSE R(SomeV(m.r), m.st)
                        ELSE R(NoneV, a.st)
+              ELSE IF f \in {"lt", "le", "gt", "ge", "cmp", "eq", "ne"} /\ a.st.lim.search # NoLimit
+                      /\ \E i \in 1..Len(a.r) : HasSeq(a.r[i])
+                THEN \* comparing sequences element by element is a native search (interop/limits.md); how many
+                     \* permits it draws is not modelled: left open under a search limit
+                     R(Nil, Taint(a.st))
               ELSE LET v == Prim(f, a.r)
                    IN IF IsBig(v) THEN R(Nil, Taint(a.st)) ELSE R(v, a.st)
 
